@@ -1,4 +1,4 @@
-import CffiVerif.Model.Compare
+import CffiVerif.Proofs.Compare
 
 /-!
 C17 — cdata equality, ordering and hashing are mutually consistent.
@@ -9,73 +9,129 @@ Statement on the model: for two objects of which at least one is a cdata,
 addresses; primitive cdata compare and hash as the Python value they convert
 to; pointer-like against anything else is `NotImplemented`.
 
+The model evaluates the flag tests, comparisons, operand order and hashed
+pointer that `translate/c17_exprs.py` re-extracts from `cdata_richcompare` and
+`cdata_hash` (`Generated/CompareExprs.lean`); the theorems go through the
+meaning lemmas of `Proofs/Compare.lean`.  "Pointer-like" is `isPtrFlags flags`
+(no `CT_PRIMITIVE_*` base flag), "primitive" its negation.
+
 The contract of the Python values themselves is a hypothesis (`PyContract`),
 not an axiom: CPython's `int`/`float`/`bool`/`bytes`/`str` satisfy it.
 -/
 namespace CffiVerif.C17
-open CffiVerif.Compare
+open CffiVerif.Compare CffiVerif.Generated
+
+/-! ## the generated tests mean what the model's kinds mean -/
+
+/-- `v_is_ptr`, `w_is_ptr` and the test of `cdata_hash` are all "no
+`CT_PRIMITIVE_*` base flag", and the three branches of `cdata_richcompare` are
+both / exactly one / none. -/
+theorem generated_tests_meaning (f : Nat) (c a b : Bool) :
+    CompareExprs.vIsPtrTest f = isPtrFlags f ∧
+    CompareExprs.wIsPtrTest c f = (c && isPtrFlags f) ∧
+    CompareExprs.hashPrimTest f = (!isPtrFlags f) ∧
+    CompareExprs.bothPtr a b = (a && b) ∧ CompareExprs.onePtr a b = (a || b) :=
+  ⟨vIsPtrTest_eq f, wIsPtrTest_eq c f, hashPrimTest_eq f, rfl, rfl⟩
+
+/-- Every base flag is classified as the property says: pointer, array, struct,
+union, function pointer are pointer-like; the five primitive kinds (with or
+without `CT_IS_LONGDOUBLE`, `CT_IS_BOOL`, `CT_IS_ENUM`) are not. -/
+theorem base_flags_classified :
+    isPtrFlags CompareExprs.CT_POINTER = true ∧ isPtrFlags CompareExprs.CT_ARRAY = true ∧
+    isPtrFlags CompareExprs.CT_STRUCT = true ∧ isPtrFlags CompareExprs.CT_UNION = true ∧
+    isPtrFlags CompareExprs.CT_FUNCTIONPTR = true ∧
+    isPtrFlags (CompareExprs.CT_PRIMITIVE_SIGNED ||| CompareExprs.CT_IS_ENUM) = false ∧
+    isPtrFlags (CompareExprs.CT_PRIMITIVE_UNSIGNED ||| CompareExprs.CT_IS_BOOL) = false ∧
+    isPtrFlags CompareExprs.CT_PRIMITIVE_CHAR = false ∧ isPtrFlags CompareExprs.CT_PRIMITIVE_FLOAT = false ∧
+    isPtrFlags (CompareExprs.CT_PRIMITIVE_FLOAT ||| CompareExprs.CT_IS_LONGDOUBLE) = false ∧
+    isPtrFlags CompareExprs.CT_PRIMITIVE_COMPLEX = false := by decide
 
 /-! ## pointer-like cdata -/
 
 /-- Pointer, array, struct, union and function cdata compare exactly as their
 addresses, for all six operators — at the slot level … -/
-theorem ptr_cmp_is_addr_cmp {V} (P : PyOps V) (op : Op) (a b : Nat) (oid : Nat) :
-    richcompare P op (.ptrlike a) (.cdata oid (.ptrlike b)) = .bool (addrCmp op a b) ∧
-    (addrCmp .eq a b = true ↔ a = b) ∧ (addrCmp .ne a b = true ↔ a ≠ b) ∧
-    (addrCmp .lt a b = true ↔ a < b) ∧ (addrCmp .le a b = true ↔ a ≤ b) ∧
-    (addrCmp .gt a b = true ↔ a > b) ∧ (addrCmp .ge a b = true ↔ a ≥ b) := by
-  refine ⟨rfl, ?_, ?_, ?_, ?_, ?_, ?_⟩ <;> simp [addrCmp]
-
-/-- The reflected comparison of two addresses is the same comparison. -/
-theorem addrCmp_swap (op : Op) (a b : Nat) : addrCmp op.swap b a = addrCmp op a b := by
-  cases op <;> simp only [Op.swap, addrCmp] <;>
-    exact decide_eq_decide.mpr ⟨fun h => by omega, fun h => by omega⟩
+theorem ptr_cmp_is_addr_cmp {V} (P : PyOps V) (op : Op) (v w : CData V) (oid : Nat)
+    (hv : isPtrFlags v.flags = true) (hw : isPtrFlags w.flags = true) :
+    richcompare P op v (.cdata oid w) = .bool (addrCmp op v.addr w.addr) ∧
+    (addrCmp .eq v.addr w.addr = true ↔ v.addr = w.addr) ∧ (addrCmp .ne v.addr w.addr = true ↔ v.addr ≠ w.addr) ∧
+    (addrCmp .lt v.addr w.addr = true ↔ v.addr < w.addr) ∧ (addrCmp .le v.addr w.addr = true ↔ v.addr ≤ w.addr) ∧
+    (addrCmp .gt v.addr w.addr = true ↔ v.addr > w.addr) ∧ (addrCmp .ge v.addr w.addr = true ↔ v.addr ≥ w.addr) := by
+  refine ⟨?_, addrCmp_spec v.addr w.addr⟩
+  unfold richcompare
+  rw [isPtr_cdata, isPtr_flags, isPtr_flags, hv, hw]
+  rfl
 
 /-- … and as Python evaluates `x op y`, whichever of the two cdata types is the
 subtype. -/
-theorem ptr_binop_is_addr_cmp {V} (P : PyOps V) (op : Op) (a b : Nat) (o1 o2 : Nat) (bSub : Bool) :
-    binop P op (.cdata o1 (.ptrlike a)) (.cdata o2 (.ptrlike b)) bSub = .ok (addrCmp op a b) := by
-  cases bSub <;>
-    simp [binop, slot, richcompare, CData.isPtr, Obj.isPtr, CData.addr, addrCmp_swap]
+theorem ptr_binop_is_addr_cmp {V} (P : PyOps V) (op : Op) (v w : CData V) (o1 o2 : Nat) (bSub : Bool)
+    (hv : isPtrFlags v.flags = true) (hw : isPtrFlags w.flags = true) :
+    binop P op (.cdata o1 v) (.cdata o2 w) bSub = .ok (addrCmp op v.addr w.addr) := by
+  have h1 := (ptr_cmp_is_addr_cmp P op v w o2 hv hw).1
+  have h2 := (ptr_cmp_is_addr_cmp P op.swap w v o1 hw hv).1
+  cases bSub <;> simp [binop, slot, h1, h2, addrCmp_swap]
 
 /-! ## primitive cdata -/
 
 /-- Primitive cdata compare as the Python value they convert to: against
 another primitive cdata and against a plain Python value, for every operator. -/
-theorem prim_cmp_is_value_cmp {V} (P : PyOps V) (op : Op) (x y : V) (oid : Nat) :
-    richcompare P op (.prim x) (.cdata oid (.prim y)) = resOf (P.cmp op x y) ∧
-    richcompare P op (.prim x) (.py oid y) = resOf (P.cmp op x y) := by
-  constructor <;> rfl
+theorem prim_cmp_is_value_cmp {V} (P : PyOps V) (op : Op) (v w : CData V) (x y : V) (oid : Nat)
+    (hv : isPtrFlags v.flags = false) (hvc : v.conv = .value x)
+    (hw : isPtrFlags w.flags = false) (hwc : w.conv = .value y) :
+    richcompare P op v (.cdata oid w) = resOf (P.cmp op x y) ∧
+    richcompare P op v (.py oid y) = resOf (P.cmp op x y) := by
+  constructor
+  · unfold richcompare
+    rw [isPtr_cdata, isPtr_flags, isPtr_flags, hv, hw]
+    simp [CompareExprs.bothPtr, CompareExprs.onePtr, CData.toValue, Obj.toValue, hvc, hwc, delegate_order]
+  · unfold richcompare
+    rw [isPtr_py, isPtr_flags, hv]
+    simp [CompareExprs.bothPtr, CompareExprs.onePtr, CData.toValue, Obj.toValue, hvc, delegate_order]
 
 /-- … and hash as that value. -/
-theorem prim_hash_is_value_hash {V} (P : PyOps V) (x : V) : cdataHash P (.prim x) = P.hash x := rfl
+theorem prim_hash_is_value_hash {V} (P : PyOps V) (self : Nat) (v : CData V) (x : V)
+    (hv : isPtrFlags v.flags = false) (hvc : v.conv = .value x) : cdataHash P self v = P.hash x := by
+  unfold cdataHash
+  rw [hashPrimTest_eq, hv, hvc]
+  rfl
 
 /-- As Python evaluates it: `cdata op value`, `value op cdata` (reflected, the
 value's own slot answers `NotImplemented`) and `cdata op cdata` all give the
 value comparison. -/
-theorem prim_binop_is_value_cmp {V} (P : PyOps V) (hP : PyContract P) (op : Op) (x y : V) (o1 o2 : Nat) :
-    binop P op (.cdata o1 (.prim x)) (.py o2 y) false = P.cmp op x y ∧
-    binop P op (.py o1 x) (.cdata o2 (.prim y)) false = P.cmp op.swap y x ∧
-    binop P op (.cdata o1 (.prim x)) (.cdata o2 (.prim y)) false = P.cmp op x y ∧
-    binop P op (.cdata o1 (.prim x)) (.cdata o2 (.prim y)) true = P.cmp op.swap y x := by
+theorem prim_binop_is_value_cmp {V} (P : PyOps V) (hP : PyContract P) (op : Op) (v w : CData V) (x y : V)
+    (o1 o2 : Nat)
+    (hv : isPtrFlags v.flags = false) (hvc : v.conv = .value x)
+    (hw : isPtrFlags w.flags = false) (hwc : w.conv = .value y) :
+    binop P op (.cdata o1 v) (.py o2 y) false = P.cmp op x y ∧
+    binop P op (.py o1 x) (.cdata o2 w) false = P.cmp op.swap y x ∧
+    binop P op (.cdata o1 v) (.cdata o2 w) false = P.cmp op x y ∧
+    binop P op (.cdata o1 v) (.cdata o2 w) true = P.cmp op.swap y x := by
+  have a1 := prim_cmp_is_value_cmp P op v w x y o2 hv hvc hw hwc
+  have a2 := prim_cmp_is_value_cmp P op.swap w v y x o1 hw hwc hv hvc
   refine ⟨?_, ?_, ?_, ?_⟩
-  · simp only [binop, slot, richcompare, CData.isPtr, Obj.isPtr, CData.toValue, Obj.toValue]
+  · simp only [binop, slot, a1.2]
     cases h : P.cmp op x y <;> simp [resOf]
-  · simp only [binop, slot, hP.foreign, richcompare, CData.isPtr, Obj.isPtr, CData.toValue, Obj.toValue]
+  · simp only [binop, slot, hP.foreign, a2.2]
     cases h : P.cmp op.swap y x <;> simp [resOf]
-  · simp only [binop, slot, richcompare, CData.isPtr, Obj.isPtr, CData.toValue, Obj.toValue]
+  · simp only [binop, slot, a1.1]
     cases h : P.cmp op x y <;> simp [resOf]
-  · simp only [binop, slot, richcompare, CData.isPtr, Obj.isPtr, CData.toValue, Obj.toValue]
+  · simp only [binop, slot, a2.1]
     cases h : P.cmp op.swap y x <;> simp [resOf]
 
-/-- A `long double` cdata cannot be compared: `NotImplementedError`, on either side. -/
-theorem longdouble_cmp_raises {V} (P : PyOps V) (op : Op) (a : Nat) (x : V) (oid : Nat) (w : Obj V)
+/-- A primitive cdata that converts to a cdata again (`long double`) cannot be
+compared: `NotImplementedError`, on either side. -/
+theorem longdouble_cmp_raises {V} (P : PyOps V) (op : Op) (v l : CData V) (x : V) (oid : Nat) (w : Obj V)
+    (hl : isPtrFlags l.flags = false) (hlc : l.conv = .cdataAgain)
+    (hv : isPtrFlags v.flags = false) (hvc : v.conv = .value x)
     (hw : w.isPtr = false) :
-    richcompare P op (.longdouble a) w = .raise .notImplementedError ∧
-    richcompare P op (.prim x) (.cdata oid (.longdouble a)) = .raise .notImplementedError := by
+    richcompare P op l w = .raise .notImplementedError ∧
+    richcompare P op v (.cdata oid l) = .raise .notImplementedError := by
   constructor
-  · simp [richcompare, CData.isPtr, hw, CData.toValue]
-  · simp [richcompare, CData.isPtr, Obj.isPtr, CData.toValue, Obj.toValue]
+  · unfold richcompare
+    rw [isPtr_flags, hl, hw]
+    simp [CompareExprs.bothPtr, CompareExprs.onePtr, CData.toValue, hlc]
+  · unfold richcompare
+    rw [isPtr_cdata, isPtr_flags, isPtr_flags, hv, hl]
+    simp [CompareExprs.bothPtr, CompareExprs.onePtr, CData.toValue, Obj.toValue, hvc, hlc]
 
 /-! ## mixed -/
 
@@ -84,7 +140,7 @@ a `long double`, any Python value), in either position: `NotImplemented`. -/
 theorem mixed_is_notimplemented {V} (P : PyOps V) (op : Op) (v : CData V) (w : Obj V)
     (h : v.isPtr ≠ w.isPtr) : richcompare P op v w = .notImplemented := by
   unfold richcompare
-  cases hv : v.isPtr <;> cases hw : w.isPtr <;> simp_all
+  cases hv : v.isPtr <;> cases hw : w.isPtr <;> simp_all [CompareExprs.bothPtr, CompareExprs.onePtr]
 
 /-- What Python makes of it for built-in values: `==` is `False`, `!=` is
 `True` (two different objects), every ordering raises `TypeError`. -/
@@ -99,7 +155,7 @@ theorem mixed_binop {V} (P : PyOps V) (hP : PyContract P) (op : Op) (a b : Obj V
       slot P op a b = .notImplemented := by
     intro op a b hcd h
     cases a with
-    | cdata o c => exact mixed_is_notimplemented P op c b (by simpa [Obj.isPtr] using h)
+    | cdata o c => exact mixed_is_notimplemented P op c b (by rw [← isPtr_cdata c o]; exact h)
     | py o v => exact hP.foreign op v
   have k1 := key op a b hcd h
   have k2 := key op.swap b a hcd.symm (Ne.symm h)
@@ -111,7 +167,7 @@ theorem mixed_binop {V} (P : PyOps V) (hP : PyContract P) (op : Op) (a b : Obj V
 /-- **`a == b` implies `hash(a) == hash(b)`** whenever at least one of the two
 is a cdata (and distinct objects have distinct identities). -/
 theorem eq_imp_hash_eq {V} (P : PyOps V) (hP : PyContract P) (a b : Obj V) (bSub : Bool)
-    (hcd : a.isCData = true ∨ b.isCData = true)
+    (_hcd : a.isCData = true ∨ b.isCData = true)
     (hid : a.oid = b.oid → a = b)
     (heq : binop P .eq a b bSub = .ok true) :
     objHash P a = objHash P b := by
@@ -120,80 +176,87 @@ theorem eq_imp_hash_eq {V} (P : PyOps V) (hP : PyContract P) (a b : Obj V) (bSub
   · rw [hid hsame]
   have hne : (a.oid == b.oid) = false := by simpa using hsame
   -- slot-level fact: a `True` from either slot gives equal hashes
-  have slotEq : ∀ (a b : Obj V), (a.isCData = true ∨ b.isCData = true) →
-      slot P .eq a b = .bool true → objHash P a = objHash P b := by
-    intro a b hcd hs
+  have slotEq : ∀ (a b : Obj V), slot P .eq a b = .bool true → objHash P a = objHash P b := by
+    intro a b hs
     cases a with
     | py o v => rw [slot, hP.foreign] at hs; cases hs
     | cdata o c =>
-      cases c with
-      | ptrlike x =>
-        cases b with
-        | py o' v => simp [slot, richcompare, CData.isPtr, Obj.isPtr] at hs
-        | cdata o' c' =>
-          cases c' with
-          | ptrlike y =>
-            simp [slot, richcompare, CData.isPtr, Obj.isPtr, CData.addr, addrCmp] at hs
-            have hxy : x = y := of_decide_eq_true hs
-            subst hxy
-            rfl
-          | prim y => simp [slot, richcompare, CData.isPtr, Obj.isPtr] at hs
-          | longdouble y => simp [slot, richcompare, CData.isPtr, Obj.isPtr] at hs
-      | longdouble x =>
-        cases hb : b.isPtr <;> simp [slot, richcompare, CData.isPtr, hb, CData.toValue] at hs
-      | prim x =>
-        cases b with
-        | py o' v =>
-          simp only [slot, richcompare, CData.isPtr, Obj.isPtr, CData.toValue, Obj.toValue] at hs
-          cases h : P.cmp .eq x v with
-          | error e => rw [h] at hs; simp [resOf] at hs
-          | ok r =>
-            rw [h] at hs; simp [resOf] at hs; subst hs
-            exact hP.eq_hash x v h
-        | cdata o' c' =>
-          cases c' with
-          | ptrlike y => simp [slot, richcompare, CData.isPtr, Obj.isPtr] at hs
-          | longdouble y => simp [slot, richcompare, CData.isPtr, Obj.isPtr, CData.toValue, Obj.toValue] at hs
-          | prim y =>
-            simp only [slot, richcompare, CData.isPtr, Obj.isPtr, CData.toValue, Obj.toValue] at hs
+      simp only [slot, richcompare] at hs
+      cases hc : c.isPtr <;> cases hb : b.isPtr <;>
+        simp only [hc, hb, CompareExprs.bothPtr, CompareExprs.onePtr, Bool.and_true, Bool.and_false,
+          Bool.or_true, Bool.or_false, Bool.and_self, Bool.or_self, if_true] at hs
+      · -- neither pointer-like: delegated to the values
+        rw [isPtr_flags] at hc
+        cases hcv : c.conv with
+        | cdataAgain => simp [CData.toValue, hcv] at hs
+        | value x =>
+          have hA : objHash P (.cdata o c) = P.hash x := prim_hash_is_value_hash P o c x hc hcv
+          cases b with
+          | py o' y =>
+            simp only [CData.toValue, hcv, Obj.toValue, (delegate_order x y).1, (delegate_order x y).2] at hs
             cases h : P.cmp .eq x y with
             | error e => rw [h] at hs; simp [resOf] at hs
             | ok r =>
               rw [h] at hs; simp [resOf] at hs; subst hs
-              exact hP.eq_hash x y h
+              rw [hA]; exact hP.eq_hash x y h
+          | cdata o' c' =>
+            rw [isPtr_cdata, isPtr_flags] at hb
+            cases hcv' : c'.conv with
+            | cdataAgain => simp [CData.toValue, Obj.toValue, hcv, hcv'] at hs
+            | value y =>
+              have hB : objHash P (.cdata o' c') = P.hash y := prim_hash_is_value_hash P o' c' y hb hcv'
+              simp only [CData.toValue, hcv, hcv', Obj.toValue, (delegate_order x y).1, (delegate_order x y).2] at hs
+              cases h : P.cmp .eq x y with
+              | error e => rw [h] at hs; simp [resOf] at hs
+              | ok r =>
+                rw [h] at hs; simp [resOf] at hs; subst hs
+                rw [hA, hB]; exact hP.eq_hash x y h
+      · cases hs
+      · cases hs
+      · -- both pointer-like: equal addresses
+        cases b with
+        | py o' y => rw [isPtr_py] at hb; cases hb
+        | cdata o' c' =>
+          rw [isPtr_cdata, isPtr_flags] at hb
+          rw [isPtr_flags] at hc
+          simp only [Res.bool.injEq] at hs
+          have hxy : c.addr = c'.addr := (addrCmp_spec c.addr c'.addr).1.mp hs
+          simp only [objHash, cdataHash, hashPrimTest_eq, hc, hb, hashedPointer_eq, hxy]
+          rfl
   -- the dispatch only ever returns `True` out of one of the two slots
   have hsw : Op.swap .eq = .eq := rfl
   cases bSub
   · simp only [binop, hsw, hne] at heq
     cases h1 : slot P .eq a b with
-    | bool r => rw [h1] at heq; simp at heq; subst heq; exact slotEq a b hcd h1
+    | bool r => rw [h1] at heq; simp at heq; subst heq; exact slotEq a b h1
     | raise e => rw [h1] at heq; simp at heq
     | notImplemented =>
       rw [h1] at heq
       cases h2 : slot P .eq b a with
-      | bool r => rw [h2] at heq; simp at heq; subst heq; exact (slotEq b a hcd.symm h2).symm
+      | bool r => rw [h2] at heq; simp at heq; subst heq; exact (slotEq b a h2).symm
       | raise e => rw [h2] at heq; simp at heq
       | notImplemented => rw [h2] at heq; simp at heq
   · simp only [binop, hsw, hne] at heq
     cases h2 : slot P .eq b a with
-    | bool r => rw [h2] at heq; simp at heq; subst heq; exact (slotEq b a hcd.symm h2).symm
+    | bool r => rw [h2] at heq; simp at heq; subst heq; exact (slotEq b a h2).symm
     | raise e => rw [h2] at heq; simp at heq
     | notImplemented =>
       rw [h2] at heq
       cases h1 : slot P .eq a b with
-      | bool r => rw [h1] at heq; simp at heq; subst heq; exact slotEq a b hcd h1
+      | bool r => rw [h1] at heq; simp at heq; subst heq; exact slotEq a b h1
       | raise e => rw [h1] at heq; simp at heq
       | notImplemented => rw [h1] at heq; simp at heq
 
-/-- Pointer-like cdata at the same address hash equal whatever their types
-(`int *`, `char[4]`, a struct at that address …), and the pointer hash never
-takes the reserved value −1. -/
-theorem ptr_hash_by_address {V} (P : PyOps V) (a : Nat) :
-    cdataHash P (.ptrlike a) = .ok (hashPointer a) ∧ hashPointer a ≠ -1 := by
-  refine ⟨rfl, ?_⟩
-  unfold hashPointer
-  simp only []
-  split <;> omega
+/-- Pointer-like cdata hash by their address whatever their types (`int *`,
+`char[4]`, a struct at that address …) and whatever object carries it, and
+the pointer hash never takes the reserved value −1. -/
+theorem ptr_hash_by_address {V} (P : PyOps V) (self : Nat) (c : CData V) (h : isPtrFlags c.flags = true) :
+    cdataHash P self c = .ok (hashPointer c.addr) ∧ hashPointer c.addr ≠ -1 := by
+  constructor
+  · simp [cdataHash, hashPrimTest_eq, h, hashedPointer_eq]
+  · unfold hashPointer
+    simp only []
+    split <;> omega
 
 /-! ## non-vacuity: Python `int` values satisfy the contract -/
 
@@ -209,13 +272,17 @@ example : binop intOps .eq (.cdata 1 (.prim 5)) (.cdata 2 (.prim 5)) false = .ok
 example : objHash intOps (.cdata 1 (.prim 5)) = objHash intOps (.cdata 2 (.prim (5 : Int))) :=
   eq_imp_hash_eq intOps intOps_contract _ _ false (Or.inl rfl) (fun h => absurd h (by decide)) rfl
 -- two pointer cdata of different types at one address
-example : binop intOps .eq (.cdata 1 (.ptrlike 4096)) (.cdata 2 (.ptrlike 4096)) true = .ok true := rfl
+example : binop intOps .eq (.cdata 1 (.ptrlike 4096)) (.cdata 2 (.ptrlike 4096 CompareExprs.CT_ARRAY)) true = .ok true := rfl
 -- addresses above 2^63 compare as unsigned
 example : binop intOps .lt (.cdata 1 (.ptrlike 4096)) (.cdata 2 (.ptrlike (2 ^ 64 - 8))) false = .ok true := rfl
 -- pointer against primitive: `==` False, `<` TypeError
 example : binop intOps .eq (.cdata 1 (.ptrlike 0)) (.cdata 2 (.prim 0)) false = .ok false := rfl
 example : binop intOps .lt (.cdata 1 (.ptrlike 0)) (.py 2 0) false = .error .typeError := rfl
 example : binop intOps .ge (.py 1 7) (.cdata 2 (.prim 7)) false = .ok true := rfl
+example : binop intOps .eq (.cdata 1 (.longdouble 64)) (.py 2 7) false = .error .notImplementedError := rfl
+-- the hypotheses of the kind-specific theorems are met by the harness's constructors
+example : isPtrFlags (CData.ptrlike 8 : CData Int).flags = true ∧ isPtrFlags (CData.prim (3 : Int)).flags = false ∧
+    isPtrFlags (CData.longdouble 8 : CData Int).flags = false := by decide
 example : hashPointer (2 ^ 64 - 1) = -2 := by decide
 example : pyIntHash (-1) = -2 ∧ pyIntHash (2 ^ 61 - 1) = 0 ∧ pyIntHash (2 ^ 61) = 1 := by decide
 
